@@ -6,6 +6,9 @@ ALL = ["C%02d" % i for i in range(1, 21)]
 
 # property -> (technique, decided clauses (short), not decided / assumptions)
 CLAIMED = {
+ "C13": ("shape analysis of the bounded retry counter, dominance chains of the redial closure, path search of the retry loop, path-sensitive drain check (go/ssa)",
+         "C13.1 Next counts down, every re-dial guarded by Next() of a counter built from RedialTimes; C13.2 redial callback/closure order, user id kept, old connection closed; C13.3 exhaustion closes, enters RedialFailed, reports false, and the session ends; C13.4 trigger de-duplication order; C13.5 pending calls are cancelled before any redial; C13.6 writes are retried only for the closed sentinel after a successful redial; C13.7 redial installed iff configured",
+         "behaviour over fault sequences and timing: e.g. after a writer-triggered redial the old reader's readDisconnected still cancels the re-sent call and may close the new socket (observed while reading; needs a schedule, not decided by any rule); server availability windows"),
  "C17": ("method-set check, value identity of the encrypted envelope, dominance of decrypt/refusal edges, constant-key and string-guard matching, path search (go/ssa)",
          "C17.1 nine stages implemented, push/reply variants delegate; C17.2 on every OK path after marshalling the body is replaced by a fresh Encrypt{version, AESEncrypt(key, marshalled body)}; C17.3 accept decision per secure/plain edge and its use on the write side; C17.4 decrypt only on version match with the plugin's key, refusals are fresh non-OK statuses, restore+decode only after; C17.5 unmarked messages untouched; C17.6 pre-write stage once per outgoing message",
          "confidentiality of the bytes, AES mode and key handling in goutil; a secure-marked message with an EMPTY cipher version is accepted without decryption (crafted input, outside the key-pair quantification; noted in DESIGN); bytes on the wire"),
